@@ -419,8 +419,9 @@ pub fn evaluate_single(cfg: &RunCfg, rec: &RunRecord) -> (Vec<Finding>, Facts) {
     // ---------------------------------------------------------------- C03: chunk contract
     // (also in histories with skip_to_end: a chunk that is returned is a whole chunk; a skip by
     // another thread in the middle of a chunk pull must not cut it short - "for every
-    // interleaving", and C06: pulls in flight deliver the positions they had reserved)
-    if !has_panic {
+    // interleaving", and C06: pulls in flight deliver the positions they had reserved; and in
+    // histories with panics: a chunk that IS returned, by a call that did not panic, is a chunk)
+    {
         for (ci, c) in calls.iter().enumerate() {
             if let Res::Chunk {
                 begin,
